@@ -4,7 +4,7 @@ import UF.Basic.Bytes
   properties can fail.  `panic` models a run-time panic (slice / index out of range) and is what
   the totality theorems exclude; `reject` is an ordinary returned `error`.
 -/
-namespace UF
+namespace UF.H
 
 inductive HErr where
   | panic
@@ -33,4 +33,4 @@ def isReject {α} : Except HErr α → Bool
   | .error .reject => true
   | _ => false
 
-end UF
+end UF.H
